@@ -49,7 +49,7 @@ Ids(db) == {db.feats[i].id : i \in 1..Len(db.feats)}
 Has(db, id) == \E i \in 1..Len(db.feats) : db.feats[i].id = id
 IndexOfId(db, id) == CHOOSE i \in 1..Len(db.feats) : db.feats[i].id = id
 Get(db, id) == db.feats[IndexOfId(db, id)]
-Field(f, name) == CASE name = "seqid" -> f.seqid [] name = "source" -> f.source [] name = "featuretype" -> f.ftype
+Field(f, name) == CASE name = "seqid" -> f.seqid [] name = "chrom" -> f.seqid [] name = "source" -> f.source [] name = "featuretype" -> f.ftype
                     [] name = "score" -> f.score [] name = "strand" -> f.strand [] name = "frame" -> f.frame
 SetField(f, name, v) == CASE name = "seqid" -> [f EXCEPT !.seqid = v] [] name = "source" -> [f EXCEPT !.source = v]
                           [] name = "featuretype" -> [f EXCEPT !.ftype = v] [] name = "score" -> [f EXCEPT !.score = v]
